@@ -130,7 +130,7 @@ async fn run_path(a: &VEndpoint, b: &VEndpoint, path: &[Ev], gap_after: Option<u
     };
     let ctx = |upto: usize, path: &Vec<Ev>| format!("[{} < {}] events {:?}{gap_note}", if sides_lt(eps) { "A" } else { "B" }, if sides_lt(eps) { "B" } else { "A" }, path[..upto.min(path.len())].iter().map(ev_str).collect::<Vec<_>>());
     fn sides_lt(eps: [&VEndpoint; 2]) -> bool {
-        eps[0].peer_id() < eps[1].peer_id()
+        eps[0].peer_id().0 < eps[1].peer_id().0
     }
     let mut added: BTreeMap<(usize, usize), bool> = BTreeMap::new();
     let mut exited: Vec<(usize, usize)> = vec![];
@@ -221,7 +221,7 @@ async fn run_path(a: &VEndpoint, b: &VEndpoint, path: &[Ev], gap_after: Option<u
         // quiescent: the convergence oracle
         let c = ctx(path.len(), &path);
         let (ha, hb) = (held(0), held(1));
-        let expected = if sides[0].id > sides[1].id { 0 } else { 1 }; // c1 is dialed by A, c2 by B
+        let expected = if sides[0].id.0 > sides[1].id.0 { 0 } else { 1 }; // c1 is dialed by A, c2 by B
         match (ha, hb) {
             (Some(x), Some(y)) if x == y => {
                 if closed(0, x) || closed(1, x) {
@@ -259,14 +259,7 @@ struct PairObs {
 
 async fn pair_world(_sim: Arc<Sim>, unit: Value) -> PairObs {
     let a_greater = unit["a_greater"].as_bool().unwrap();
-    let (small, big) = {
-        let (a, b) = (1u8, 2u8);
-        if peer_id_of_key(a) < peer_id_of_key(b) {
-            (a, b)
-        } else {
-            (b, a)
-        }
-    };
+    let (small, big) = super::c05::ordered_keys_for(unit["ids"].as_str().unwrap_or(""));
     let (ka, kb) = if a_greater { (big, small) } else { (small, big) };
     let cfg = anemo::Config::default();
     let mk = |k: u8| {
@@ -317,7 +310,7 @@ async fn pair_world(_sim: Arc<Sim>, unit: Value) -> PairObs {
     obs
 }
 
-pub fn units(_thorough: bool) -> Vec<Value> {
+pub fn units(thorough: bool) -> Vec<Value> {
     // split by the first two events so that the pool has work for every core
     let mut u = vec![];
     for a_greater in [false, true] {
@@ -331,6 +324,25 @@ pub fn units(_thorough: bool) -> Vec<Value> {
                     }
                 }
                 // first add followed by settle / exit cannot happen: nothing is closed yet
+            }
+        }
+    }
+    // every order again for identity pairs whose first differing bytes stand in a particular
+    // relation (exactly 0x80 apart, across the sign boundary, far apart, first byte equal): the
+    // tie-break rests on a total order of the identities
+    for ids in ["d80", "cross", "wide", "eqfirst"] {
+        let _ = thorough;
+        for a_greater in [false, true] {
+            for s1 in 0..2usize {
+                for k1 in 0..2usize {
+                    for s2 in 0..2usize {
+                        for k2 in 0..2usize {
+                            if (s1, k1) != (s2, k2) {
+                                u.push(json!({"kind":"pair","ids":ids,"a_greater":a_greater,"prefix":[["add",s1,k1],["add",s2,k2]]}));
+                            }
+                        }
+                    }
+                }
             }
         }
     }
@@ -377,7 +389,7 @@ pub fn run_unit(unit: &Value, out: &mut UnitResult) {
         out.machinery_errors.push(m);
     }
     for (k, m, path) in d.violations {
-        out.violation(k, m, json!({"unit": {"kind":"pair","a_greater":unit["a_greater"],"prefix":path.iter().map(ev_json).collect::<Vec<_>>(),"single":true}}));
+        out.violation(k, m, json!({"unit": {"kind":"pair","ids":unit["ids"],"a_greater":unit["a_greater"],"prefix":path.iter().map(ev_json).collect::<Vec<_>>(),"single":true}}));
     }
     if let Some(s) = d.sample {
         out.sample(json!({"pair path": s}));
